@@ -121,7 +121,11 @@ pub fn check<I: Inputs>(vt: &'static Vt<I>, ctx: &Ctx) -> DeclReport {
         let Some(v0) = obtained else { return Outcome::ok(false, "start-not-obtainable") };
         // the property itself: the constructor maps an obtained value to itself
         {
-            let gate = !has_custom_san || matches!(crate::model::construct(m, v0.clone()), Ok(ref x) if x.same(&v0));
+            // chains with a custom sanitizer: the claim is made where the reference model says the chain is
+            // idempotent - at the obtained value, or at the value the model expects this start to yield
+            // (an entry point that skips the sanitizers hands out a value that is not a fixed point)
+            let fixed = |x: &I| matches!(crate::model::construct(m, x.clone()), Ok(ref y) if y.same(x));
+            let gate = !has_custom_san || fixed(&v0) || matches!(crate::model::construct(m, c.start.clone()), Ok(ref e) if fixed(e));
             if gate {
                 match no_panic(|| (vt.ctor)(v0.clone())) {
                     Ok(Ok(x)) if x.same(&v0) => {}
